@@ -34,7 +34,8 @@ class ContentIndexRowModel(ParserModel):
             return "template_arguments"
 
     def header_name_to_field_name_with_context(header, row):
-        if row["type"] == "template_definition" and header == "template_arguments":
+        row_type = row["type"].strip()
+        if row_type == "template_definition" and header == "template_arguments":
             return "template_argument_definitions"
         else:
             return header
